@@ -5,7 +5,7 @@ ID = "C35"
 TARGETS = ["paramiko.ed25519key.Ed25519Key.verify_ssh_sig", "paramiko.rsakey.RSAKey.verify_ssh_sig",
            "paramiko.ecdsakey.ECDSAKey.verify_ssh_sig", "paramiko.ecdsakey.ECDSAKey._sigdecode"]
 EXTRA_AXIOMS = specs.MPINT_AXIOMS
-REPLAY = {"*": "c35.replay_verify"}
+REPLAY = {"*": "c35.replay_verify", "RSAKey": "c35.rsa_odd_modulus"}
 
 
 def setup(E):
@@ -17,7 +17,9 @@ LEVEL_TEXT = ("Proof of the totality clause on the real verify_ssh_sig of RSAKey
               "exception of any class escapes and the result is a bool, given the exception classes the library primitives "
               "were observed to raise. The functional clauses (a genuine signature verifies under the key and its public "
               "counterpart, anything else does not) are properties of the cryptographic library and are exercised only by "
-              "the native replay; they are assumed, not proved.")
+              "the native replay; they are assumed, not proved. For RSA additionally what reaches the library: a blob naming one of the key's algorithms is always put to the "
+              "library (never rejected on its length alone), as the blob's signature left-padded with zero bytes to at least the size of "
+              "the modulus, and True is answered only when the library accepted.")
 LEVEL_NOTE = ("Assumed raise sets (probed natively): nacl VerifyKey.verify raises BadSignatureError or ValueError; "
               "cryptography verify raises InvalidSignature; encode_dss_signature raises ValueError for negative integers; "
               "Message.get_text raises UnicodeDecodeError; other cryptography calls auto-opaque (total). Key generation, "
